@@ -177,6 +177,46 @@ def directed_branch_switch():
     finally:
         shutil.rmtree(base, ignore_errors=True)
 
+
+def directed_new_scm_over_user_files():
+    """the user created files in a directory that bob does not manage yet; the recipe then adds an SCM that wants this directory"""
+    from replay import projlib as P
+    base = tempfile.mkdtemp(prefix='c12n-'); home = os.path.join(base, 'home'); os.makedirs(home); log = []
+    try:
+        up = os.path.join(base, 'upstream'); os.makedirs(up); git(up, 'init', '-q', '-b', 'master')
+        with open(os.path.join(up, 'file.txt'), 'w') as f: f.write('main\n')
+        git(up, 'add', '-A'); git(up, 'commit', '-q', '-m', 'c0')
+        up2 = os.path.join(base, 'vendor-upstream'); os.makedirs(up2); git(up2, 'init', '-q', '-b', 'master')
+        with open(os.path.join(up2, 'config.h'), 'w') as f: f.write('#define UPSTREAM 1\n')
+        git(up2, 'add', '-A'); git(up2, 'commit', '-q', '-m', 'v0')
+        import yaml
+        for variant in ('git-into-dir', 'import-into-dir'):
+            proj = P.Project(root=os.path.join(base, 'proj-' + variant)); proj.env.update(ENV); proj.env['HOME'] = home
+            os.makedirs(os.path.join(proj.dir, 'vendor-src')); open(os.path.join(proj.dir, 'vendor-src', 'config.h'), 'w').write('#define IMPORTED 1\n')
+            def write(second):
+                scm = [{'scm': 'git', 'url': 'file://' + up, 'branch': 'master'}] + ([second] if second else [])
+                with open(os.path.join(proj.dir, 'config.yaml'), 'w') as f: f.write('bobMinimumVersion: "0.25"\n')
+                with open(os.path.join(proj.dir, 'recipes', 'r0.yaml'), 'w') as f:
+                    yaml.safe_dump({'root': True, 'checkoutSCM': scm, 'buildScript': 'true\n', 'packageScript': 'true\n'}, f)
+            write(None); rc, out = proj.bob('dev', 'r0')
+            if rc != 0: return None, ['(setup failed: %s)' % out[-200:].replace('\n', ' ')]
+            w = repos_below(os.path.join(proj.dir, 'dev'))[0]
+            os.makedirs(os.path.join(w, 'vendor')); precious = b'/* user work, never committed */\n'
+            with open(os.path.join(w, 'vendor', 'config.h'), 'wb') as f: f.write(precious)
+            second = {'scm': 'git', 'url': 'file://' + up2, 'branch': 'master', 'dir': 'vendor'} if variant == 'git-into-dir' else {'scm': 'import', 'url': 'vendor-src', 'dir': 'vendor'}
+            write(second); rc, out = proj.bob('dev', 'r0'); log.append('%s: user file vendor/config.h, recipe adds an SCM with dir vendor, bob dev -> %d' % (variant, rc))
+            found = False
+            for root, ds, fs in os.walk(os.path.join(proj.dir, 'dev')):
+                if '.git' in ds: ds.remove('.git')
+                if 'config.h' in fs and open(os.path.join(root, 'config.h'), 'rb').read() == precious: found = True
+            if not found:
+                return {'kind': 'user-file-lost-or-overwritten', 'file': 'vendor/config.h', 'variant': variant, 'history': log, 'bob_output': out[-400:]}, log
+        return None, log
+    except Exception as ex:
+        return None, ['harness problem: %r %s' % (ex, traceback.format_exc()[-300:])]
+    finally:
+        shutil.rmtree(base, ignore_errors=True)
+
 def replay(rep):
     import concurrent.futures as cf
     seed = int(os.environ.get('VERIF_SEED', '0') or 0)
@@ -184,7 +224,7 @@ def replay(rep):
     n = 40 if thorough else 10; steps = 8 if thorough else 6
     tried = 0; distinct = set(); samples = []; problems = 0
     with cf.ThreadPoolExecutor(max_workers=8) as ex:
-        futs = [ex.submit(directed_branch_switch)] + [ex.submit(one_case, seed * 1000 + i, steps) for i in range(n)]
+        futs = [ex.submit(directed_branch_switch), ex.submit(directed_new_scm_over_user_files)] + [ex.submit(one_case, seed * 1000 + i, steps) for i in range(n)]
         for f in cf.as_completed(futs):
             w, log = f.result(); tried += 1
             if log and (str(log[-1]).startswith('harness problem') or str(log[-1]).startswith('(setup')): problems += 1; samples.append({'problem': log[-1]}) if len(samples) < 3 else None; continue
@@ -193,5 +233,5 @@ def replay(rep):
             if w is not None: return {'reproduced': True, 'tried': tried, 'witness': w}
     if problems > tried // 2: return {'reproduced': None, 'detail': 'harness problems in %d of %d cases: %s' % (problems, tried, samples[:2])}
     return {'reproduced': False, 'tried': tried, 'distinct': len(distinct), 'samples': samples,
-            'bound': 'directed branch-switch scenario (3 variants) + %d generated histories of %d operations over one git upstream (2 branches, 2 tags): recipe SCM edits, upstream commits, 5 kinds of user work, bob dev / --clean-checkout / clean -s; url/import/svn SCMs and nested SCMs are not generated' % (n, steps),
+            'bound': 'directed branch-switch scenario (3 variants), new SCM over a directory with user files (git, import) + %d generated histories of %d operations over one git upstream (2 branches, 2 tags): recipe SCM edits, upstream commits, 5 kinds of user work, bob dev / --clean-checkout / clean -s; url/import/svn SCMs and nested SCMs are not generated' % (n, steps),
             'detail': 'every user commit stayed reachable from a ref and every user file survived (in place or attic); untouched workspaces equalled fresh checkouts'}
